@@ -217,8 +217,11 @@ impl StreamingMetrics {
     pub fn record_download(&self, bytes: u64, duration: Duration) {
         self.bytes_downloaded.fetch_add(bytes, Ordering::Relaxed);
 
-        if duration.as_secs() > 0 {
-            let bandwidth = bytes / duration.as_secs();
+        // bytes per second over the real duration (sub-second downloads are the normal case)
+        let nanos = duration.as_nanos();
+        if nanos > 0 {
+            let per_sec = u128::from(bytes) * 1_000_000_000 / nanos;
+            let bandwidth = u64::try_from(per_sec).unwrap_or(u64::MAX);
             self.current_bandwidth.store(bandwidth, Ordering::Relaxed);
 
             // Update peak bandwidth
